@@ -121,15 +121,19 @@ Definition mutex_of (mutexes : list (string * string)) (t : string) : string :=
     name is not one the analysed packages define ([methods], listed by the translator) — a
     method of another package's type, taken to modify the object it is called on (the most
     demanding reading: it needs the lock exclusively).  A call of a package method through a
-    field must be resolved explicitly (its body has to be analysed). *)
+    field must be resolved explicitly (its body has to be analysed) unless the translator
+    resolved it from the field's declared type ([Call "@T" m]); a field whose declared type
+    belongs to another package ([external], listed by the translator) only has methods of that
+    package, whatever their names. *)
 Definition mk_policy_inferred (explicit : list (string * guard)) (effects : list (string * string * effect))
-    (mutexes : list (string * string)) (methods : list string) (funs : funtab) (entries : list string) : policy :=
+    (mutexes : list (string * string)) (methods external : list string) (funs : funtab) (entries : list string) : policy :=
   let eff := fun loc meth =>
     match direct_call loc meth with
     | Some e => Some e
     | None => match assoc2 loc meth effects with
               | Some e => Some e
-              | None => if mem_str meth methods then None else Some EWrite
+              | None => if mem_str loc external then Some EWrite      (* declared type of another package *)
+                        else if mem_str meth methods then None else Some EWrite
               end
     end in
   let reach := reachable_funs {| guard_of := fun _ => None; effect_of := eff |} funs entries in
@@ -147,50 +151,44 @@ Definition mk_policy_inferred (explicit : list (string * guard)) (effects : list
 (** * C04: queries, schema reads and the LRU cache used concurrently on one open index *)
 Definition entries_C04 : list string := ["Index.Execute"; "Index.GetSchema"; "LRUCache.Get"; "LRUCache.Put"].
 
-Definition policy_C04 (mutexes : list (string * string)) (methods : list string) (funs : funtab) : policy := mk_policy_inferred
+Definition policy_C04 (mutexes : list (string * string)) (methods external : list string) (funs : funtab) : policy := mk_policy_inferred
   [ (* a Query value belongs to the goroutine that executes it (its expression tree is only
        read: a write to a field of an Expr* node is a write to a struct without mutex) *)
     ("Query.GroupBy", Unshared); ("Query.groupByFields", Unshared); ("Query.Expr", Unshared) ]
-  [ ("Index.cache", "Get", ECall "Cache.Get"); ("Index.cache", "Put", ECall "Cache.Put");
-    ("Index.values", "GetCol", ECall "colGetter.GetCol"); ("Index.values", "GetCardinality", ERead);
-    ("Query.Expr", "eval", ECall "Expression.eval"); ("Query.Expr", "GetCardinality", ERead);
-    ("ExprNot.Expr", "eval", ECall "Expression.eval"); ("ExprAnd.Exprs", "eval", ECall "Expression.eval");
-    ("ExprOr.Exprs", "eval", ECall "Expression.eval");
-    ("ExprNot.Expr", "cacheKey", ECall "Expression.cacheKey"); ("ExprAnd.Exprs", "cacheKey", ECall "Expression.cacheKey");
-    ("ExprOr.Exprs", "cacheKey", ECall "Expression.cacheKey");
+  [ (* calls through fields of the package's own types are resolved by the translator from the
+       declared field types; reading the cardinality of a result bitmap: *)
+    ("Index.values", "GetCardinality", ERead); ("Query.Expr", "GetCardinality", ERead);
     (* container/list, bbolt, atomic and roaring methods called under a lock need no entry: the
        default reading (modifies the object) holds there *)
     (* trusted to be safe for concurrent use: metric sinks, bbolt read transactions *)
     ("LRUCache.metrics", "Inc", ENone); ("Index.metrics", "Observe", ENone); ("onDemandColGetter.db", "View", ENone) ]
-  mutexes methods funs entries_C04.
+  mutexes methods external funs entries_C04.
 
 (** * C18: AddRow called concurrently on one writer *)
 Definition entries_C18_mem : list string := ["IndexWriter.AddRow"].
 Definition entries_C18_big : list string := ["BigIndexWriter.AddRow"].
 
-Definition policy_C18_mem (mutexes : list (string * string)) (methods : list string) (funs : funtab) : policy := mk_policy_inferred
+Definition policy_C18_mem (mutexes : list (string * string)) (methods external : list string) (funs : funtab) : policy := mk_policy_inferred
   [ (* the schema object belongs to the writer *)
     ("schema.Columns", GuardedBy (mutex_of mutexes "IndexWriter")) ]
-  [ ("IndexWriter.schema", "add", ECall "schema.add") ]
-  mutexes methods funs entries_C18_mem.
+  [ ]
+  mutexes methods external funs entries_C18_mem.
 
-Definition policy_C18_big (mutexes : list (string * string)) (methods : list string) (funs : funtab) : policy := mk_policy_inferred
+Definition policy_C18_big (mutexes : list (string * string)) (methods external : list string) (funs : funtab) : policy := mk_policy_inferred
   [ ("schema.Columns", GuardedBy (mutex_of mutexes "BigIndexWriter")) ]
-  [ ("BigIndexWriter.schema", "add", ECall "schema.add");
-    (* Put, Commit and Begin are also method names of these packages: bbolt's here *)
-    ("BigIndexWriter.tempTx", "Put", EWrite); ("BigIndexWriter.tempTx", "Commit", EWrite); ("BigIndexWriter.tempDB", "Begin", ERead) ]
-  mutexes methods funs entries_C18_big.
+  [ ("BigIndexWriter.tempDB", "Begin", ERead) ]
+  mutexes methods external funs entries_C18_big.
 
 (** * C17: the driver's connection cache *)
 Definition entries_C17 : list string := ["updogDriver.openFile"; "fileConn.Close"].
 
-Definition policy_C17 (mutexes : list (string * string)) (methods : list string) (funs : funtab) : policy := mk_policy_inferred
+Definition policy_C17 (mutexes : list (string * string)) (methods external : list string) (funs : funtab) : policy := mk_policy_inferred
   [ (* a shared connection's index pointer and reference count belong to the driver's cache *)
     ("fileConn.idx", GuardedBy (mutex_of mutexes "updogDriver")); ("fileConn.refs", GuardedBy (mutex_of mutexes "updogDriver")) ]
-  [ ("fileConn.d", "release", ECall "updogDriver.release");
-    (* Close is also a method name of this package: *updog.Index.Close ends the connection's index *)
-    ("fileConn.idx", "Close", EWrite); ("updogDriver.fileConnCache", "Close", EWrite) ]
-  mutexes methods funs entries_C17.
+  [ (* a connection found in the map, then closed (error path): Close of fileConn is not what is
+       meant, the index behind it is *)
+    ("updogDriver.fileConnCache", "Close", EWrite) ]
+  mutexes methods external funs entries_C17.
 
 (** The largest number of acquisitions of lock [l] on any path through a skeleton (calls of
     analysed functions inlined up to [fuel]; a loop that acquires counts as "many").  An entry
